@@ -111,3 +111,175 @@ pub(crate) fn user_data_single(s: &SingleShared) -> u64 {
 pub(crate) fn user_data_multi(s: &MultiShared) -> u64 {
     std::ptr::from_ref(s).expose_provenance() as u64 | 1
 }
+
+// ---------------------------------------------------------------------------
+// Whole operation `State` (as held by the Future types).
+// ---------------------------------------------------------------------------
+
+use super::{Data, OpResult, State};
+
+fn shared_mut<T, R, A>(s: &mut State<T, R, A>) -> &mut Shared<T> {
+    let data = unsafe { s.data.as_mut() };
+    match data.shared.get_mut() {
+        Ok(g) => g,
+        Err(e) => e.into_inner(),
+    }
+}
+
+/// Put a single-shot operation into `Done` with the given completion result
+/// (as `Shared::update` leaves it after the final completion).
+pub(crate) fn force_done<R, A>(s: &mut State<Singleshot, R, A>, res: i32, flags: u32) {
+    shared_mut(s).status = Status::Done { results: Singleshot(cr(res, flags)) };
+}
+
+/// `Running` (submitted, no final completion yet), with a stored waker.
+pub(crate) fn force_running<R, A>(s: &mut State<Singleshot, R, A>, res: i32, flags: u32, waker: Option<task::Waker>) {
+    let sh = shared_mut(s);
+    sh.status = Status::Running { results: Singleshot(cr(res, flags)) };
+    sh.waker = waker;
+}
+
+pub(crate) fn force_multi<R, A>(s: &mut State<Multishot, R, A>, done: bool, results: &[(i32, u32)], waker: Option<task::Waker>) {
+    let mut v = Vec::with_capacity(8);
+    for (r, f) in results {
+        v.push(cr(*r, *f));
+    }
+    let sh = shared_mut(s);
+    sh.status = if done { Status::Done { results: Multishot(v) } } else { Status::Running { results: Multishot(v) } };
+    sh.waker = waker;
+}
+
+pub(crate) fn state_tag<T, R, A>(s: &State<T, R, A>) -> Tag {
+    tag(unsafe { &s.data.as_ref().shared })
+}
+
+pub(crate) fn state_waker<T, R, A>(s: &State<T, R, A>) -> Option<usize> {
+    waker_of(unsafe { &s.data.as_ref().shared })
+}
+
+/// The user_data the library uses for this state.
+pub(crate) fn state_user_data<T: OpResult, R, A>(s: &State<T, R, A>) -> u64 {
+    s.user_data()
+}
+
+/// Address range of the heap allocation holding the operation's data
+/// (shared status + resources + args).
+pub(crate) fn state_alloc<T, R, A>(s: &State<T, R, A>) -> (usize, usize) {
+    (s.data.as_ptr().addr(), std::mem::size_of::<Data<T, R, A>>())
+}
+
+pub(crate) fn state_multi_results<R, A>(s: &State<Multishot, R, A>) -> (usize, [(i32, u32); 4]) {
+    multi_results(unsafe { &s.data.as_ref().shared })
+}
+
+pub(crate) fn state_single_result<R, A>(s: &State<Singleshot, R, A>) -> Option<(i32, u32)> {
+    single_result(unsafe { &s.data.as_ref().shared })
+}
+
+/// What the real `poll_inner` does when it resolves a single-shot operation:
+/// mark it `Complete` and move the resources out.
+pub(crate) fn complete_and_take<R, A>(s: &mut State<Singleshot, R, A>) -> R {
+    shared_mut(s).status = Status::Complete;
+    unsafe { s.data.as_mut().tail.resources.get().cast::<R>().read() }
+}
+
+/// Resources and arguments a (re)started operation would be submitted with.
+pub(crate) fn resources_args<T, R, A>(s: &mut State<T, R, A>) -> (&mut R, &mut A) {
+    let data = unsafe { s.data.as_mut() };
+    (unsafe { data.tail.resources.get_mut().assume_init_mut() }, &mut data.tail.args)
+}
+
+// ---------------------------------------------------------------------------
+// Model of `io_uring::op::poll` (the single-shot front end of `poll_inner`),
+// used as a Kani stub by the composite-I/O harnesses (C10).
+//
+// Two chained real `poll_inner` calls (resolve + resubmit) inside a composite
+// future's recursion run CBMC out of memory (> 20 GB with everything but the
+// transfer size concrete). The model keeps exactly the two arms the composites
+// exercise and calls the operation's REAL closures:
+//   * status Done      -> take the stored completion result, mark Complete,
+//                         move the resources out, return map_ok(target,
+//                         resources, (flags, n)) or fallback(...) on error;
+//   * status NotStarted (only reachable through the composite's real
+//     `State::reset`) -> run the REAL fill_submission + set_flags on the
+//     resources/arguments found in the state, record the request, Pending.
+// poll_inner itself (locking, wakers, queue-full, restart) is C02/C03/C09.
+// ---------------------------------------------------------------------------
+
+use super::{OpReturn, OpTarget, Submission};
+use crate::io_uring::verif_kernel as k;
+
+pub(crate) static mut MODEL_REQUESTS: u32 = 0;
+pub(crate) static mut MODEL_REQUEST: k::Sqe = k::ZERO_SQE;
+pub(crate) static mut MODEL_RESOLVED: u32 = 0;
+
+pub(crate) fn model_reset() {
+    unsafe {
+        MODEL_REQUESTS = 0;
+        MODEL_REQUEST = k::ZERO_SQE;
+        MODEL_RESOLVED = 0;
+    }
+}
+
+pub(crate) fn poll_model<T, O, R, A, Out>(
+    target: &T,
+    state: &mut State<O, R, A>,
+    _ctx: &mut task::Context<'_>,
+    fill_submission: impl Fn(&T, &mut R, &mut A, &mut Submission),
+    map_ok: impl Fn(&T, R, OpReturn) -> Out,
+    fallback: impl Fn(&T, R, &mut A, std::io::Error) -> std::io::Result<Out>,
+) -> task::Poll<std::io::Result<Out>>
+where
+    T: OpTarget,
+    O: OpResult,
+{
+    let data = unsafe { state.data.as_mut() };
+    let shared = match data.shared.get_mut() {
+        Ok(g) => g,
+        Err(e) => e.into_inner(),
+    };
+    match &mut shared.status {
+        Status::Done { results } => {
+            let result = results.next().unwrap();
+            shared.status = Status::Complete;
+            unsafe { MODEL_RESOLVED += 1 };
+            let resources = unsafe { data.tail.resources.get().cast::<R>().read() };
+            match result.check_result() {
+                Ok(n) => task::Poll::Ready(Ok(map_ok(target, resources, (result.flags, n)))),
+                Err(err) => task::Poll::Ready(fallback(target, resources, &mut data.tail.args, err)),
+            }
+        }
+        Status::NotStarted => {
+            let resources = unsafe { data.tail.resources.get_mut().assume_init_mut() };
+            let mut sub = k::new_submission();
+            fill_submission(target, resources, &mut data.tail.args, &mut sub);
+            target.set_flags(&mut sub);
+            unsafe {
+                MODEL_REQUEST = k::submission_view(&sub);
+                MODEL_REQUESTS += 1;
+            }
+            task::Poll::Pending
+        }
+        _ => panic!("composite polled its inner operation in an unexpected state"),
+    }
+}
+
+/// Number of requests the operation issued: recorded by the model (Kani) or
+/// really queued on the ring (native replay, where stubs do not apply and the
+/// real `poll_inner` runs against the static submission queue).
+pub(crate) fn requests() -> u32 {
+    unsafe { MODEL_REQUESTS + k::sq_tail() }
+}
+
+pub(crate) fn last_request() -> k::Sqe {
+    unsafe {
+        if MODEL_REQUESTS > 0 {
+            MODEL_REQUEST
+        } else {
+            let mut e = k::sqe_view(k::sqe(((k::sq_tail().wrapping_sub(1)) & 3) as usize));
+            // the real submission also carries the operation's user_data
+            e.user_data = 0;
+            e
+        }
+    }
+}
